@@ -43,10 +43,14 @@ SameRA(r, a) ==
                                IN  Len(ra) = Len(aa) /\ \A i \in 1..Len(ra) : SameRA(ra[i], aa[i])
          [] OTHER -> FALSE
 
+\* every node of a returned tree (macro expansions and map / struct entries included) carries a positive id of its own:
+\* ids are what error positions and macro expansion refer to
+IdsOK(o) == "ids" \in DOMAIN o => /\ \A i \in 1..Len(o.ids) : o.ids[i] > 0
+                                  /\ Cardinality({ o.ids[i] : i \in 1..Len(o.ids) }) = Len(o.ids)
 VecOK(r) ==
   LET t == AST!ParsePrefix(r.syms).tree IN
-  /\ r.full.out.k = "ok" /\ SameRA(r.full.out.ast, t)
-  /\ r.min.out.k = "ok" /\ SameRA(r.min.out.ast, t)
+  /\ r.full.out.k = "ok" /\ SameRA(r.full.out.ast, t) /\ IdsOK(r.full.out)
+  /\ r.min.out.k = "ok" /\ SameRA(r.min.out.ast, t) /\ IdsOK(r.min.out)
 
 \* lines of a text: sequence of [chars, bytes] per line (split at \n)
 RECURSIVE LinesFrom(_, _, _, _, _)
@@ -85,6 +89,7 @@ TextOK(r) ==
   CASE r.out.k = "ok" ->
          LET p == GR!Parse(r.text) IN
          /\ p.sentence                                           \* a non-sentence is never accepted
+         /\ IdsOK(r.out)
          /\ ("ast" \in DOMAIN r.out /\ ~p.u /\ ~GR!IsBad(p.t)) => GR!TreeSame(p.t, r.out.ast)
     [] r.out.k = "err" ->
          /\ Len(r.out.errors) >= 1 /\ r.out.displaylen > 0
